@@ -14,6 +14,7 @@ def run(ctx):
     q = ctx.quick()
     plans = [
         {"world": "focus_valsets", "cover": True, "steps": 6 if q else 7, "avoid": True, "crash": True},
+        {"world": "focus_chain", "cover": True, "edge": True, "steps": 6 if q else 7, "avoid": True, "crash": True},
         {"world": "happy", "sim": 4 if q else 25, "steps": 8 if q else 11, "avoid": True, "crash": True, "cap": 260 if q else 4000, "seeds": 1 if q else 3},
         {"world": "replay", "sim": 3 if q else 20, "steps": 7 if q else 9, "avoid": True, "crash": True, "cap": 200 if q else 3000, "seeds": 1 if q else 2},
     ]
